@@ -19,7 +19,8 @@ def build(ctx):
         "E": {"key_mgr": M.delegation((1,), 2), "pkg_mgr": M.delegation((1, 2), 3), "root": M.delegation((), 1)},
         "F": {"key_mgr": M.delegation((1, 2), True), "pkg_mgr": M.delegation((2, 3), 2.0), "root": M.delegation((0, 1, 2, 3), 4)},
     }
-    names = ["key_mgr", "root", "pkg_mgr", "Key_mgr", "key_mgr ", "", "ключ", "nope", 5, None, b"key_mgr"]
+    names = ["key_mgr", "root", "pkg_mgr", "Key_mgr", "key_mgr ", "", "ключ", "nope", 5, None, b"key_mgr",
+             "key_mgr.json", "root.json", "pkg_mgr.json", "KEY_MGR", " key_mgr", "key_mgr\n", "key-mgr", "key_mgr/", "./key_mgr", "key_mg", "key_mgr\x00"]
     for rn, dl in roles.items():
         T = M.envelope(M.md("root", 3, dl), (0,))
         for name in names:
@@ -33,6 +34,19 @@ def build(ctx):
                     for gpg in (False, True):
                         U = M.envelope(pl, signers, mode="gpg" if gpg else "raw")
                         out.append(("verify_delegation", name, U, T, gpg, {"s": "roles x names x payloads x signers x mode", "roles": rn}))
+    # one key listed under several spellings for a role, its one signature filed under each: never a second signer,
+    # and trusted metadata listing a non-canonical spelling is malformed
+    pl = M.md("key_mgr", 1, {})
+    for sp in M.RESPELL:
+        for th in (1, 2):
+            for extra in ((), (2,)):
+                T = M.envelope(M.md("root", 3, {"root": M.delegation((0,), 1), "key_mgr": M.respelled(1, th, (sp,), extra)}), (0,))
+                for gpg in (False, True):
+                    U = M.respell_signatures(M.envelope(pl, (1,), mode="gpg" if gpg else "raw"), 1, (sp,))
+                    out.append(("verify_delegation", "key_mgr", U, T, gpg, {"s": "respelled keys in the trusted rule", "sp": sp}))
+                    # canonical trusted rule, respelled entries only in the unsigned map
+                    T2 = M.envelope(M.md("root", 3, {"root": M.delegation((0,), 1), "key_mgr": M.delegation((1, 2), 2)}), (0,))
+                    out.append(("verify_delegation", "key_mgr", U, T2, gpg, {"s": "respelled entries in the signature map", "sp": sp}))
     # gpg flag kinds, wrong-mode signatures, malformed trusted side
     T = M.envelope(M.md("root", 3, roles["A"]), (0,))
     pl = M.md("key_mgr", 1, {})
@@ -84,4 +98,12 @@ def run(ctx):
         except Exception:
             return False
     core.run_stream(ctx, core.Stream("verify_delegation: trusted role sets x requested names x payload kinds x signer subsets x modes", cases, rel, oracle, nontriv))
+    def want(c):
+        _, name, U, T, gpg = wire.dec(c["w"])
+        try:
+            return M.delegation_rhs(name, U, T, gpg)
+        except Exception:
+            return False
+    sub = [c for c in cases if c["meta"].get("roles") in ("A", "D") or c["meta"]["s"].startswith("respelled")]
+    core.failing_stdout_streams(ctx, "verify_delegation on role sets A and D", sub, want)
     ctx.assumptions = ["signatures of both modes are made by the harness with pyca/cryptography directly"]
